@@ -1290,7 +1290,7 @@ func (m *M) callBuiltin(name string, args []*gojq.Query, e *env, in PV, emit fun
 			return m.rangeGen(a[0], a[1], a[2], func(v any) error { return emit(PV{V: v, C: in.C}) })
 		})
 	case "input/0", "inputs/0", "builtins/0", "input_line_number/0", "modulemeta/0", "now/0", "localtime/0", "mktime/0", "gmtime/0",
-		"$__loc__/0", "get_search_list/0", "input_filename/0", "splits/1", "splits/2", "ltrimstr/1", "rtrimstr/1":
+		"$__loc__/0", "get_search_list/0", "input_filename/0", "splits/1", "splits/2":
 		return unsup("builtin %s", key)
 	}
 	if fd := BuiltinDef(name, len(args)); fd != nil {
@@ -1359,12 +1359,17 @@ func (m *M) rangeGen(start, end, step any, emit func(any) error) error {
 
 // ---- formats ----
 
+var formatHook func(format string, v any) (any, error)
+
 func applyFormat(format string, v any) (any, error) {
 	switch format {
 	case "@text":
 		return ToString(v)
 	case "@json":
 		return ToJSON(v)
+	}
+	if formatHook != nil {
+		return formatHook(format, v)
 	}
 	return nil, unsup("format %s", format)
 }
